@@ -191,9 +191,9 @@ def run(chk):
     from lib import cvtdir
     cvtdir.run(chk)
     fns_o = []
-    for unit_, pat_ in (("asmjit/x86/x86func.cpp", r"asmjit::x86::FuncInternal::[a-z_0-9]+$"), ("asmjit/arm/a64func.cpp", r"asmjit::a64::FuncInternal::[a-z_0-9]+$")):
+    for unit_, pat_ in (("asmjit/x86/x86func.cpp", r"asmjit::x86::(FuncInternal::)?[a-z_0-9]+$"), ("asmjit/arm/a64func.cpp", r"asmjit::a64::(FuncInternal::)?[a-z_0-9]+$")):
         fns_o += [g for g in _cfg.load_functions(chk.facts(unit_, funcs=pat_)) if g.file.endswith(unit_.split("/")[-1])]
-    _sub.run(chk, fns_o, {}, {}, {}, rule="R-ORDER-SUBSCRIPT-BOUND", floor=6, only_fields=("id",),
+    _sub.run(chk, fns_o, {}, {}, {}, rule="R-ORDER-SUBSCRIPT-BOUND", floor=1, only_fields=("id",),
              text="every subscript of a calling convention's register order (`_passed_order[group].id[i]`, 16 entries) has an index that is "
                   "bounded below 16 on the path (`i < kMaxRegArgsPerGroup`, a position counter that is tested before it advances): arguments "
                   "beyond the register-passed ones never read a neighbouring group's order as register ids")
